@@ -653,6 +653,10 @@ func callSSA(i *interpreter, caller *frame, callpos token.Pos, fn *ssa.Function,
 	}
 	if fn.Parent() == nil {
 		name := fn.String()
+		if px.skipFns != nil && px.skipFns[name] {
+			// verifrt.SkipCalls: the harness replaces this function's effect by its own (contract) values
+			return zeroResults(fn)
+		}
 		if ext := i.env.intrinsic(name, fn); ext != nil {
 			return ext(fr, args)
 		}
